@@ -82,7 +82,7 @@ def make_replay(prop, r):
                 break
             rep["native"] = rep["native"] or nat
     h = hashlib.sha1((r.lemma.name + f0["name"] + json.dumps(f0["ghosts"], sort_keys=True)).encode()).hexdigest()[:10]
-    path = os.path.join(vf.VERIF, "replays", "%s-%s-%s.json" % (prop, re.sub(r"[^A-Za-z0-9_.-]", "_", r.lemma.name), h))
+    path = os.path.join(vf.OUT, "replays", "%s-%s-%s.json" % (prop, re.sub(r"[^A-Za-z0-9_.-]", "_", r.lemma.name), h))
     rep["path"] = path
     os.makedirs(os.path.dirname(path), exist_ok=True)
     with open(path, "w") as fh:
